@@ -117,4 +117,101 @@ theorem ci_create (P : Params) (s : Store) (op : Op) (d : Nat)
   · rw [if_neg hv] at hok
     simp [Out.fail] at hok
 
+/-! ### LookupAllChildren / ReadDir -/
+
+theorem mem_insertReport {r x : Report} {l : List Report} : x ∈ insertReport r l ↔ x = r ∨ x ∈ l := by
+  induction l with
+  | nil => simp [insertReport]
+  | cons y rest ih =>
+    unfold insertReport
+    split
+    · simp
+    · simp [ih]
+      constructor
+      · rintro (h | h | h) <;> simp [h]
+      · rintro (h | h | h) <;> simp [h]
+
+theorem mem_sortReports {x : Report} {l : List Report} : x ∈ sortReports l ↔ x ∈ l := by
+  induction l with
+  | nil => simp [sortReports]
+  | cons y rest ih =>
+    unfold sortReports
+    rw [mem_insertReport, ih]
+    simp
+
+theorem length_insertReport (r : Report) (l : List Report) : (insertReport r l).length = l.length + 1 := by
+  induction l with
+  | nil => simp [insertReport]
+  | cons y rest ih =>
+    unfold insertReport
+    split
+    · simp
+    · simp [ih]
+
+theorem length_sortReports (l : List Report) : (sortReports l).length = l.length := by
+  induction l with
+  | nil => rfl
+  | cons y rest ih => unfold sortReports; rw [length_insertReport, ih]; simp
+
+/-- `LookupAllChildren` and `ReadDir` report exactly the entries that are not hidden
+leaves, each once (name and child of the entry; cookie field 0). -/
+theorem listing_calls_exact (P : Params) (s : Store) (d : Nat) (op : Op)
+    (hop : op = .lookupAll d ∨ op = .readDirB d) (hok : (exec P s op).2.status = .ok) :
+    (∀ r, r ∈ (exec P s op).2.reports ↔
+        ∃ e ∈ ((exec P s op).1.dir d).entries, visible P e = true ∧ r = ⟨0, e.name, e.child⟩) ∧
+    (exec P s op).2.reports.length = (((exec P s op).1.dir d).entries.filter (visible P)).length := by
+  rcases hop with rfl | rfl
+  · simp only [exec, lookupAll] at hok ⊢
+    cases hm : materialize P s d with
+    | error e => simp [hm, Out.fail] at hok; exact absurd hok (by
+        have := hm; intro h'; subst h'
+        unfold materialize at this
+        split at this
+        · cases this
+        · split at this
+          · cases this
+          · split at this <;> cases this)
+    | ok s1 =>
+      simp only []
+      refine ⟨?_, ?_⟩
+      · intro r
+        simp only [List.mem_append, mem_sortReports, List.mem_map, List.mem_filter, entryReport]
+        constructor
+        · rintro (⟨e, ⟨he, hv⟩, rfl⟩ | ⟨e, ⟨he, hv⟩, rfl⟩)
+          · exact ⟨e, he, by simp [visible, hv], rfl⟩
+          · refine ⟨e, he, ?_, rfl⟩
+            simp at hv; simp [visible, hv.2]
+        · rintro ⟨e, he, hv, rfl⟩
+          cases hdir : e.child.isDir with
+          | true => exact Or.inl ⟨e, ⟨he, hdir⟩, rfl⟩
+          | false =>
+            refine Or.inr ⟨e, ⟨he, ?_⟩, rfl⟩
+            simp [visible, hdir] at hv
+            simp [hdir, hv]
+      · simp only [List.length_append, length_sortReports, List.length_map]
+        generalize (s1.dir d).entries = es
+        induction es with
+        | nil => rfl
+        | cons e rest ih =>
+          simp only [List.filter_cons]
+          cases hdir : e.child.isDir <;> cases hh : P.hidden e.name <;> simp [visible, hdir, hh] at ih ⊢ <;> omega
+  · simp only [exec, readDirB] at hok ⊢
+    cases hm : materialize P s d with
+    | error e => simp [hm, Out.fail] at hok; exact absurd hok (by
+        have := hm; intro h'; subst h'
+        unfold materialize at this
+        split at this
+        · cases this
+        · split at this
+          · cases this
+          · split at this <;> cases this)
+    | ok s1 =>
+      simp only []
+      refine ⟨?_, by simp [length_sortReports]⟩
+      intro r
+      simp only [mem_sortReports, List.mem_map, List.mem_filter, entryReport]
+      constructor
+      · rintro ⟨e, ⟨he, hv⟩, rfl⟩; exact ⟨e, he, hv, rfl⟩
+      · rintro ⟨e, he, hv, rfl⟩; exact ⟨e, ⟨he, hv⟩, rfl⟩
+
 end BbRe.Lemmas.Dir
